@@ -58,3 +58,13 @@ func (e *verifE1) VerifC05TraceTail(n int) []string {
 
 func VerifBucket(n int) int { return verifBucket(n) }
 func VerifJoin(parts ...any) string { return verifJoin(parts...) }
+
+// VerifC05SetOnLoad installs the hook called whenever both parties of a C05
+// schedule have just been loaded from disk (creation, restart, disconnect).
+func VerifC05SetOnLoad(f func(e *VerifE1)) {
+	if f == nil {
+		verifC05OnLoad = nil
+		return
+	}
+	verifC05OnLoad = func(e *verifE1) { f(e) }
+}
